@@ -158,6 +158,11 @@ class FaultPlan:
             x = OSError(errno.ENOSPC, f'injected ENOSPC at {site}')
             x._vt_injected = True
             return x
+        if kind == 'brokenpipe':
+            import errno
+            x = BrokenPipeError(errno.EPIPE, f'injected EPIPE at {site}')
+            x._vt_injected = True
+            return x
         if kind in ('valueerror', 'hard:valueerror'):
             x = ValueError(f'injected ValueError at {site}')
             x._vt_injected = True
